@@ -319,6 +319,58 @@ func c10Run(c *Ctx) {
 		}
 	}
 
+	// long regroupings: right chain, left chain and balanced tree of one operator over the same leaf
+	// sequence denote the same function (associativity applied n times), in every rendering
+	sizes := append([]int{}, longSizes...)
+	if c.Thorough() {
+		sizes = append(sizes, longSizesThorough...)
+	}
+	c.Bound("long_regrouping", map[string]any{"sizes": sizes, "families": "right chain = left chain = balanced tree, AND and OR, 3 renderings"})
+	for _, n := range sizes {
+		pi++
+		if !c.Mine(pi) {
+			continue
+		}
+		if c.Expired() {
+			return
+		}
+		lt := LongTrees(n, len(c10Atoms))
+		for _, opn := range []string{"and", "or"} {
+			var ref uint16
+			var refText string
+			for fi, fam := range []string{"right-chain-", "left-chain-", "balanced-"} {
+				t := lt[fam+opn]
+				for _, text := range []string{t.RenderFull(c10Atoms, true), t.RenderMin(c10Atoms), t.RenderAssoc(c10Atoms)} {
+					if !c.Begin(fmt.Sprintf("long regrouping %s%s n=%d", fam, opn, n)) {
+						continue
+					}
+					o := c10Obs(text)
+					c.Inc("states")
+					c.Add("transitions", 8)
+					c.Inc("evaluations")
+					if o == 0xFFFF {
+						c.Inc("skipped_panic")
+						continue
+					}
+					c.Add("traces", 8)
+					if refText == "" {
+						ref, refText = o, text
+						continue
+					}
+					c.Inc("long_regrouping_edges")
+					if v := o & 0x7f; v != 0 && v != 0x7f {
+						c.Inc("nontrivial")
+					}
+					if o != ref {
+						cs := c10Case{Kind: "edge", Rule: "associativity (regrouping of a " + fmt.Sprint(n) + "-operand chain)", E1: refText, E2: text}
+						c.Report(Violation{Kind: "c10.case", Class: "long-regrouping:" + opn, Key: fmt.Sprintf("long:%s:%d:%d", opn, n, fi), Size: 1000 + n,
+							Msg: fmt.Sprintf("regrouping a chain of %d %s-operands changes the observation: %s vs %s (first expression: %s)", n, opn, c10Describe(ref), c10Describe(o), first(refText, 120)), Case: mustJSON(cs)})
+					}
+				}
+			}
+		}
+	}
+
 	// compositionality over terms that share an id but differ in '+' / WITH
 	rich := TreesUpTo(2, len(c10RichAtoms))
 	var res []string
